@@ -1337,12 +1337,18 @@ XPathProcessorImpl::UnaryExpr()
         isNeg = true;
     }
 
-    UnionExpr();
-
     if(isNeg == true)
     {
+        // UnaryExpr ::= UnionExpr | '-' UnaryExpr, so the
+        // operand can have a unary minus of its own.
+        UnaryExpr();
+
         m_expression->updateOpCodeLength(XPathExpression::eOP_NEG,
                                          opPos);
+    }
+    else
+    {
+        UnionExpr();
     }
 }
   
